@@ -372,6 +372,8 @@ class Impute(EnvironmentFilter):
             context = interaction['context']
 
             if is_dense:
+                #the indicators are appended so we need a list (a SparseDense context, e.g. after Densify, can't grow)
+                if not isinstance(context,list): context = interaction['context'] = list(context)
                 is_missing = [0]*len(impute_binary)
                 for k,v in enumerate(context):
                     if _is_missing(v):
